@@ -87,6 +87,11 @@ ChunkIndexChunkLenOld(v, fileSize, start) ==
 IndexedBufferSize(v) == MakeSafe(v)
 IndexedBufferSizeOld(v) == IF IsNegI64(v) \/ Gt(v, V("M63", -1000)) THEN Panic ELSE [class |-> "ok", alloc |-> v]
 
+(* indexed loadChunk: the stored (none) or decoded (zstd) chunk data against the declared uncompressed size that bounds
+   the in-chunk walk; `have` is what the chunk really holds *)
+IndexedChunkDataLen(v, have) == IF v # Z(have) THEN Err ELSE Ok(v)
+IndexedChunkDataLenOld(v, have) == IF Gt(v, Ceiling) THEN Err ELSE IF Gt(v, Z(have)) THEN Panic ELSE Ok(v)   \* walk and NextInto slice by the declared size
+
 (* seekTo: offsets from footer and indexes *)
 SeekOffset(v, fileSize) == IF Gt(v, V("M63", 0)) \/ ~Lt(v, Z(fileSize)) THEN Err ELSE Ok(Z(0))
 
@@ -101,7 +106,7 @@ Safe(r, bound) == r.class \in {"ok", "error"} /\ Le(r.alloc, bound)
 
 VARIABLE row
 Rows == {"LexRecordLen", "LexRecordLenLimited", "AttachmentRecordLen", "ChunkCompressionLen", "ChunkUncompressedSizeValidating",
-         "ChunkUncompressedSizeLimited", "ParseChunkRecordsLen", "AttachmentStringLen", "ChunkIndexChunkLen", "IndexedBufferSize", "SeekOffset"}
+         "ChunkUncompressedSizeLimited", "ParseChunkRecordsLen", "AttachmentStringLen", "ChunkIndexChunkLen", "IndexedBufferSize", "IndexedChunkDataLen", "SeekOffset"}
 Init == row \in Rows
 Next == UNCHANGED row
 Spec == Init /\ [][Next]_row
@@ -118,6 +123,7 @@ Outcomes(r, old) ==
     [] r = "AttachmentStringLen" -> {IF old THEN AttachmentStringLenOld(m, 700) ELSE AttachmentStringLen(m, 700) : m \in us}
     [] r = "ChunkIndexChunkLen" -> {IF old THEN ChunkIndexChunkLenOld(m, FileSize, 300) ELSE ChunkIndexChunkLen(m, FileSize, 300) : m \in ms}
     [] r = "IndexedBufferSize" -> {IF old THEN IndexedBufferSizeOld(m) ELSE IndexedBufferSize(m) : m \in ms}
+    [] r = "IndexedChunkDataLen" -> {IF old THEN IndexedChunkDataLenOld(m, 100) ELSE IndexedChunkDataLen(m, 100) : m \in ms}
     [] r = "SeekOffset" -> {SeekOffset(m, FileSize) : m \in ms}
 
 (* the ceiling that applies to a row: the configured limit where one is set, the file size where the data must exist, 2 GiB otherwise *)
